@@ -123,6 +123,11 @@ def translate_data() -> str:
     out.append(table("gen_type_boolab", "boolab", lambda c: boolab(_get_type_boolability(c))))
     out.append(table("gen_type_boolab_exact", "boolab", lambda c: boolab(_get_type_boolability(c, is_exact=True))))
     out.append(table("gen_meta_boolab", "boolab", lambda c: boolab(_get_type_boolability(type(c), is_exact=True))))
+    def meta_name(c):
+        _expect(type(c) in rev, f"metaclass {type(c)} of {c} is outside the universe")
+        return U.COQ_CLS[rev[type(c)]]
+
+    out.append(table("gen_meta", "cls", meta_name))
     import enum
 
     out.append(table("gen_enum_size", "nat", lambda c: len(list(c)) if issubclass(c, enum.Enum) else 0))
